@@ -1,5 +1,72 @@
-import GoRedisModel.Model.Show
-/-! placeholder until the theorems of C11 are written -/
+import GoRedisModel.Proofs.Truncate
+import GoRedisModel.Proofs.Loop
+import GoRedisModel.Properties.C02
+/-! # C11 — a request is executed only if it was received completely -/
 namespace GoRedis
-theorem C11_placeholder : True := trivial
+
+/-- a client request: a non-empty array of non-null bulk strings -/
+def request (args : List Bytes) : Msg := .arr (bulks args)
+
+def ValidRequest (args : List Bytes) : Prop :=
+  args ≠ [] ∧ (∀ b ∈ args, b.length ≤ maxBulk) ∧ args.length ≤ maxInt
+
+/-- **Every strict prefix of a request is a parse error** — for every request and every byte offset
+`0 < p < |enc r|` — so the loop drops the connection without executing anything for it. -/
+theorem C11_prefix_is_error (args : List Bytes) (hv : ValidRequest args) (p : Nat) (hp0 : 0 < p)
+    (hp : p < (enc (request args)).length) (f : Nat) :
+    parse (f + 2) ((enc (request args)).take p) = .err :=
+  parse_request_truncated f args hv.1 hv.2.1 hv.2.2 p hp0 hp
+
+/-- …and the same over the real transport, however the surviving bytes were segmented. -/
+theorem C11_prefix_is_error_chunked (args : List Bytes) (hv : ValidRequest args) (p : Nat) (hp0 : 0 < p)
+    (hp : p < (enc (request args)).length) (r : Reader) (hr : r.rest = (enc (request args)).take p) :
+    inext (r.rest.length + 2) r = .err := by
+  have h := C02_next_chunked (r.rest.length + 2) r (by omega)
+  rw [hr] at h
+  rw [C11_prefix_is_error args hv p hp0 hp] at h
+  rw [hr]
+  cases hx : inext (((enc (request args)).take p).length + 2) r with
+  | err => rfl
+  | ok m r' => rw [hx] at h; simp [IRes.flat] at h
+  | eof => rw [hx] at h; simp [IRes.flat] at h
+  | panic => rw [hx] at h; simp [IRes.flat] at h
+  | fuel => rw [hx] at h; simp [IRes.flat] at h
+
+/-- **Handler calls come from complete requests only.**  A stream that consists of complete values `ms`
+followed by a strict prefix of one more request produces exactly the trace of `ms` alone — the same handler
+calls with the same arguments, the same replies, once each — and then ends: nothing is executed for the
+partial request, with any cut point. -/
+theorem C11_partial_request_not_executed (pf : FloatOracle) (ms : List Msg) (hw : wfs ms)
+    (args : List Bytes) (hv : ValidRequest args) (p : Nat) (hp : p < (enc (request args)).length)
+    (srv : SrvSt) (requirePass : Bool) (script : List HRes) :
+    serve pf srv requirePass (encs ms ++ (enc (request args)).take p) script =
+      serve pf srv requirePass (encs ms) script := by
+  have hlen := encs_length_ge ms (wfs_noAbsents ms hw)
+  have hnot : ∀ m r, parse (((enc (request args)).take p).length + 1) ((enc (request args)).take p) ≠ .ok m r := by
+    intro m r
+    by_cases hp0 : p = 0
+    · subst hp0; simp [parse]
+    · have hl : ((enc (request args)).take p).length = p := by simp [List.length_take]; omega
+      obtain ⟨f, hf⟩ : ∃ f, p + 1 = f + 2 := ⟨p - 1, by omega⟩
+      rw [hl, hf, C11_prefix_is_error args hv p (by omega) hp f]
+      simp
+  simp only [serve]
+  rw [serveLoop_steps_tail pf ms hw _ hnot _ (by simp; omega)]
+  rw [serveLoop_steps pf ms hw _ (by omega)]
+
+/-- **The connection is then released**: the trace ends with the registry removal and the close. -/
+theorem C11_released (pf : FloatOracle) (srv : SrvSt) (requirePass : Bool) (input : Bytes) (script : List HRes) :
+    ∃ body, serve pf srv requirePass input script = body ++ [.deregister, .close] := ⟨_, rfl⟩
+
+/-! ## Non-vacuity -/
+example : ValidRequest [b!"LPOP", b!"l"] := by
+  refine ⟨by simp, ?_, by simp [maxInt]⟩
+  intro b hb; simp at hb; rcases hb with rfl | rfl <;> simp [maxBulk]
+
+/-- `*2 $4 LPOP $1 l` cut before the final CRLF (this executed the LPOP before the repair) -/
+example : parse 30 b!"*2\r\n$4\r\nLPOP\r\n$1\r\nl" = .err :=
+  C11_prefix_is_error [b!"LPOP", b!"l"] (by
+    refine ⟨by simp, ?_, by simp [maxInt]⟩
+    intro b hb; simp at hb; rcases hb with rfl | rfl <;> simp [maxBulk]) 19 (by decide) (by decide) 28
+
 end GoRedis
